@@ -834,7 +834,9 @@ class Aspire:
         config_dict["log_likelihood"] = log_likelihood
         config_dict["log_prior"] = log_prior
 
-        aspire = Aspire(**config_dict)
+        # Keyword options of the flow are stored under "flow_kwargs"
+        flow_kwargs = config_dict.pop("flow_kwargs", None) or {}
+        aspire = Aspire(**config_dict, **flow_kwargs)
 
         with AspireFile(file_path, "r") as h5_file:
             if flow_path in h5_file:
